@@ -224,7 +224,7 @@ def check(ctx):
                  "#9999-366#", "#9999-999#", "#0001-000#", "#0001-001#", "#2020-366#", "#2021-366#", "#9999-W53-7#", "#0001-W01-1#", "#9999-W52-7T23:59#",
                  "x = #9999-366#; 1", "#99991231#", "#00010101T000000#", "#9999-12-31T24:00#", "#2020-02-30T10:00#", "#+2020-01-01#", "#-0001-01-01#", "#10000-01-01#",
                  "#2020-01-01T10:00:00.5#", "#2020-01-01T10:00:00,25#", "#2020-01-01T10:00Z#", "#2020-001#", "#2020-W01#",
-                 "range(1e16, 1e16+4, 0.5)", "range(10^16, 10^16+4, 0.5)", "range(1.0e16, 1.0e16+2, 0.25)",
+                 "1844..6744073709551616", "x = 1..10^19", "[1, 2] / 1..10^20", "sum(5..10^30)", "range(1e16, 1e16+4, 0.5)", "range(10^16, 10^16+4, 0.5)", "range(1.0e16, 1.0e16+2, 0.25)",
                  "range(2^53, 2^53+8, 0.5)", "range(1e300, 1e300*2, 1)", "range(0.1, 0.2, 1e-18)", "size(range(2251799813685248.5, 2251799813685268.5, 0.7))", "ceil(#2020-01-31#)", "#2020-01-01# + 1 ms", "log(8,-2)", "ln(1/10^400)",
                  "sin(1/1.5e-200/1.5e-200)", "x = 1/1.5e-200/1.5e-200; int(x - x)", "x = pi*1e308; x - x", "x = 2.5*1e308; x*0",
                  "#2020-01-01# + (1/1.5e-200/1.5e-200) s", "floor(pi*1e308)", "{2.5*1e308}", "1e308 miles", "[1, 1e308]*2.5",
